@@ -94,6 +94,20 @@ def run(ctx):
                     sc = dict(proto=proto, ops=ops, order=list(order), clients=1, **kw)
                     T.append(dict(scenario=dict(sc, solo=solo), events=asyncio.run(D.run_schedule(sc))))
         if proto.startswith("v3"):
+            # two / three clients for DIFFERENT agents that announce one and the same engine id (clones) but count their boots apart: what a
+            # client learns about "the engine" is that client's knowledge alone
+            for ops, clients, limit in [([["get", 0], ["get", 1]], 2, 40), ([["walkC", 0], ["get2", 1], ["set", 0]], 2, 40 if q else 300),
+                                        ([["get", 2], ["bulkA", 1], ["get3", 0]], 3, 40 if q else 300)]:
+                solo, ex = prep(ops, clients, False, same_engine=True)
+                word = [k for k, n in ex.items() for _ in range(n)]
+                for order in distinct_orders(word, limit, rnd):
+                    sc = dict(proto=proto, ops=ops, order=list(order), clients=clients, same_engine=True)
+                    T.append(dict(scenario=dict(sc, solo=solo), events=asyncio.run(D.run_schedule(sc))))
+                second = [k for k in ex if not k.endswith("@0")]
+                for after in (1, 2, 3):      # ... also when the other clients are first used after the first one has finished discovery (or more)
+                    sc = dict(proto=proto, ops=ops, order=([k for k in ex if k.endswith("@0")] * 12)[:after] + word, clients=clients, same_engine=True,
+                              late={k: after for k in second})
+                    T.append(dict(scenario=dict(sc, solo=solo), events=asyncio.run(D.run_schedule(sc))))
             # different users (other pass-phrases, same hash) on ONE agent: keys are per user and engine, never per engine alone
             for ops, clients, limit in [([["get", 0], ["get", 1]], 2, 40), ([["get", 0], ["walkC", 1], ["set", 2]], 3, 60 if q else 300), ([["get2", 1], ["get", 0]], 2, 40)]:
                 solo, ex = prep(ops, clients, True)
@@ -105,7 +119,7 @@ def run(ctx):
     verdicts = ctx.validate("Trace_Concurrent", T, chunk=3000)
     ctx.judge(T, verdicts, signature=sig, nontrivial=lambda tr, v: json.dumps([tr["scenario"]["proto"], tr["scenario"]["ops"], tr["scenario"]["order"]]))
     ctx.rule = ("sets of 2..6 concurrent operations (gets, multiget, sets, walks incl. overlapping subtrees, bulk walks, table) on one shared client and on two clients "
-                "for different agents on one loop, two / three clients of different users (other pass-phrases) for one agent, GET and GETNEXT of the same name in flight together, v2c and v3 authPriv; all distinct orders of answering the pending requests for the small sets (up to the limit), "
+                "for different agents on one loop (with engine ids of their own, or one engine id announced by all of them with different boots counters), two / three clients of different users (other pass-phrases) for one agent, GET and GETNEXT of the same name in flight together, v2c and v3 authPriv; all distinct orders of answering the pending requests for the small sets (up to the limit), "
                 "seeded orders beyond; the clock advances between any two requests so that request ids differ, or stands still so that they coincide; answers produced on release or at once (and then "
                 "reordered); the transport settings of every request are compared too; each operation's outcome is compared with its solo outcome")
     ctx.exhaustive = False
